@@ -210,6 +210,10 @@ def sync_order(trace, ts=None):
 
 # ----------------------------------------------------------------------------- one scenario, one process
 
+def _syncgran(spec):
+    return spec.get("sync_granularity") and os.environ.get("VERIF_E2_FULLGRAN") != "1"
+
+
 def check_scenario(spec: dict) -> dict:
     """spec: {"module": ..., "factory": ..., "args": {...}, "K": int, "tier":...} -> result dict (picklable)"""
     t_all = time.time()
@@ -255,11 +259,13 @@ def check_scenario(spec: dict) -> dict:
             K = (longest or 60) + 2
             if endless:
                 res["inconclusive"].append(f"{spec['name']}: {endless} random schedule(s) of the model did not come to rest within 400 steps; bounded search at depth {K} only")
+        if spec.get("hunt") and spec.get("hunt_depth"):
+            K = min(K, spec["hunt_depth"])
         enc = ts.encode(K)
         res["K"] = K
         res["encode_s"] = round(enc.build_s, 1)
 
-        disc = replayable(enc) if spec.get("sync_granularity") else []
+        disc = replayable(enc) if _syncgran(spec) else []
         res["granularity"] = "context switches at synchronisation operations only" if disc else "every shared access is a scheduling point"
 
         use_por = spec.get("por", True) and os.environ.get("VERIF_E2_POR", "1") != "0"
@@ -326,6 +332,10 @@ def check_scenario(spec: dict) -> dict:
         rv = violation_pass()
         if rv == "sat":
             res["note"] = "counterexample found at depth K before the unwinding assertion was discharged; unwinding and witness queries skipped"
+        elif spec.get("hunt"):
+            res["note"] = (f"bug hunting only: no counterexample among the schedules of at most {K} steps (K = longest of the random schedules + 2, or the scenario's smaller hunting depth); "
+                           "the unwinding assertion that would make this a claim about all schedules is discharged in the thorough tier")
+            res["hunt"] = True
         else:
             # unwinding assertion (deepen a few times if some schedule is longer than the probes suggested)
             for attempt in range(8):
@@ -335,7 +345,7 @@ def check_scenario(spec: dict) -> dict:
                 K += 4
                 enc = ts.encode(K)
                 res["K"] = K
-                disc = replayable(enc) if spec.get("sync_granularity") else []
+                disc = replayable(enc) if _syncgran(spec) else []
             if r != "unsat":
                 res["inconclusive"].append(f"{spec['name']}: depth K={K} too small or solver gave {r}")
             if K != K0:
@@ -465,10 +475,11 @@ def outcome_from(property_id, tier, results, functions, assumptions, bounds, out
         "traces_validated_against_impl": sum(r.get("traces_validated", 0) for r in ok),
         "scenarios": len(results),
         "queries": nq,
-        "obligations": 3 * len(results),
+        "obligations": sum(1 if r.get("hunt") else 3 for r in results),
+        "bug_hunting_only": [r["name"] for r in results if r.get("hunt")],
         "discharged": sum(1 for r in results for q in r["queries"] if (q["query"].startswith("witness") and q["result"] == "sat") or (q["query"].startswith("violation:") and q["result"] == "unsat") or (q["query"].startswith("unwinding") and q["result"] == "unsat")),
         "solver_s": round(solver_s, 1),
-        "per_scenario": [{k: r.get(k) for k in ("name", "granularity", "K", "cfa_locations", "cfa_edges", "raw_edges", "state_vars", "universe", "protected", "partial_order_reduction", "queries", "traces_validated", "sim_max_steps", "wall_s", "second_solver")} for r in results],
+        "per_scenario": [{k: r.get(k) for k in ("name", "granularity", "K", "cfa_locations", "cfa_edges", "raw_edges", "state_vars", "universe", "protected", "partial_order_reduction", "note", "queries", "traces_validated", "sim_max_steps", "wall_s", "second_solver")} for r in results],
         "bounds": bounds,
         "outside_the_claim": outside,
         "explanation": explanation,
